@@ -236,7 +236,7 @@ def exec_and_validate(domain, scripts, workdir, module, cfg, events_per_chunk=15
             except Exception:
                 pass
             idx = next((i for i, s in enumerate(todo) if s.get("tid") == cur), None)
-            if idx is None or len(crashes) >= 5:
+            if idx is None:
                 raise ToolError("harness failed on %s (exit %d):\n%s" % (sp, p.returncode, p.stdout[-2000:]))
             crashes.append({"tid": cur, "line": 0, "p": "*", "m": "the implementation crashed the process while executing this script",
                             "d": "exit status %d; %s" % (p.returncode, p.stdout[-300:].replace("\n", " "))})
@@ -262,6 +262,8 @@ def exec_and_validate(domain, scripts, workdir, module, cfg, events_per_chunk=15
             with open(tpp, "w") as f:
                 f.writelines(keep[:cut])
             todo = todo[idx + 1:]
+            if len(crashes) >= 25:
+                todo = []      # enough evidence; the rest of this chunk is not executed
             part += 1
             if not todo:
                 break
